@@ -737,11 +737,11 @@ func TestVerifC32(t *testing.T) {
 	c.Floor("import_streams", 40)
 	c.Floor("import_refused", 20)
 	c.Floor("import_accepted", 3)
-	c.Floor("restore_cases", 20)
-	c.Floor("restore_success_equals_saved", 3)
-	c.Floor("restore_failed_unchanged", 10)
+	c.Floor("restore_cases", 15)
+	c.Floor("restore_success_equals_saved", 2)
+	c.Floor("restore_failed_unchanged", 8)
 	c.Floor("restore_failed_partway", 2)
-	c.Floor("tree_comparisons", 100)
+	c.Floor("tree_comparisons", 60)
 	c.MinDistinct(30)
 	syscall.Umask(022)
 
@@ -753,8 +753,8 @@ func TestVerifC32(t *testing.T) {
 		}
 	}
 
-	nScen := kit.Scale(2, 4)
-	nImport := kit.Scale(70, 210) // per scenario
+	nScen := kit.Scale(1, 4)
+	nImport := kit.Scale(102, 204) // per scenario (34 stream classes, round-robin)
 	only := kit.OnlyCase()
 	for s := 0; s < nScen; s++ {
 		if only >= 0 && only/caseStride != s {
